@@ -108,6 +108,11 @@ class LinFn:
         self._ub_busy = {}
         self.atom_ty = {}
         self._facts_cache = {}
+        self.extra_bounds = {}      # atom -> (lo, hi) from recognised producers (Range loop variables, ...)
+        self.extra_facts = {}       # atom -> [Lin >= 0] side facts of the atom's producer (checked_sub success, ...)
+        self.assumed = []           # [(Lin >= 0, point)] declared facts (representation invariants, callee post-conditions)
+        self._mem_events = None
+        self.atom_place = {}        # memory atom -> canonical place list
 
     # ------------------------------------------------------------------ CFG helpers
     def all_defs(self):
@@ -131,19 +136,20 @@ class LinFn:
             self._alldefs = d
         return self._alldefs
 
-    def reaching(self, bb):
-        """blocks from which bb is reachable (inclusive)."""
-        if bb not in self._reaching:
+    def reaching(self, bb, avoid=None):
+        """blocks from which bb is reachable (inclusive) without passing through block `avoid`."""
+        key = (bb, avoid)
+        if key not in self._reaching:
             seen = {bb}
             st = [bb]
             while st:
                 b = st.pop()
                 for p, _ in self.fn.pred(b):
-                    if p not in seen:
+                    if p not in seen and p != avoid:
                         seen.add(p)
                         st.append(p)
-            self._reaching[bb] = seen
-        return self._reaching[bb]
+            self._reaching[key] = seen
+        return self._reaching[key]
 
     def in_cycle(self, bb):
         for t, _ in self.fn.succ(bb):
@@ -152,29 +158,37 @@ class LinFn:
         return False
 
     def no_def_between(self, local, P, S):
-        """No write to `local` on any path from point P (exclusive) to point S (exclusive)."""
+        """No write to `local` between the most recent execution of point P and point S (both exclusive):
+        i.e. on no path from P to S that does not pass through P again."""
         defs = self.all_defs().get(local, [])
+        return self._no_event_between(defs, P, S)
+
+    def _no_event_between(self, defs, P, S):
         if not defs:
             return True
         (pb, pi), (sb, si) = P, S
-        if pb == sb and pi <= si and not self.in_cycle(pb):
+        if pb == sb and pi <= si:
             return not any(b == pb and pi < i < si for b, i in defs)
         fwd = set()
         for t, _ in self.fn.succ(pb):
-            fwd |= self.fn.reachable_from(t)
-        region = fwd & self.reaching(sb)
+            if t != pb:
+                fwd |= self.fn.reachable_from(t, avoid_blocks=(pb,))
+        if pb != sb and sb not in fwd:
+            return True         # S not reachable from P at all
+        region = fwd & self.reaching(sb, pb if pb != sb else None)
+        s_cyclic = False
+        if sb != pb:
+            for t, _ in self.fn.succ(sb):
+                if t != pb and sb in self.fn.reachable_from(t, avoid_blocks=(pb,)):
+                    s_cyclic = True
         for b, i in defs:
-            if b == pb and b not in region:
-                if i > pi and sb in fwd:
+            if b == pb:
+                if i > pi or (pb == sb and i < si):
                     return False
                 continue
             if b in region:
-                if b == sb and b != pb and not self.in_cycle(b):
+                if b == sb and not s_cyclic:
                     if i < si:
-                        return False
-                    continue
-                if b == pb and b != sb and not self.in_cycle(b):
-                    if i > pi:
                         return False
                     continue
                 return False
@@ -185,11 +199,83 @@ class LinFn:
             b = _base(a)
             if b is None:
                 continue
+            if a in self.atom_place:
+                pl = self.atom_place[a]
+                evs = [(bb, i) for bb, i, w in self.mem_events() if self._proj_conflict(pl, w)]
+                if not self._no_event_between(evs, P, S):
+                    return False
             if 0 < b <= self.fn.arg_count and not self.all_defs().get(b):
                 continue
             if not self.no_def_between(b, P, S):
                 return False
         return True
+
+    # ------------------------------------------------------------------ memory places
+    def canon_place(self, pl, depth=0):
+        """Resolve the base local of place `pl` through copies of references and (re)borrows:
+        `_x = &[mut] P`  =>  `_x*` == P ;  `_x = P` (copy/move of a reference) => `_x` == P."""
+        pl = list(pl)
+        while depth < 12:
+            depth += 1
+            n = pl[0]
+            if 0 < n <= self.fn.arg_count:
+                break
+            d = self._single_def(n)
+            if d is None or d[1] == "call":
+                break
+            rv = d[3]
+            if rv[0] in ("ref", "rawptr") and len(pl) > 1 and pl[1] == "*":
+                pl = list(rv[2]) + pl[2:]
+                continue
+            if rv[0] == "use" and not isinstance(rv[1], dict) and len(pl) > 1 and pl[1] == "*":
+                pl = list(rv[1]) + pl[1:]
+                continue
+            if rv[0] == "cast" and not isinstance(rv[2], dict) and len(pl) > 1 and pl[1] == "*" and str(rv[1]).startswith("PointerCoercion"):
+                pl = list(rv[2]) + pl[1:]
+                continue
+            break
+        return pl
+
+    @staticmethod
+    def _pl_str(pl):
+        return "_%d%s" % (pl[0], "".join(pl[1:]))
+
+    def mem_events(self):
+        """Writes through pointers: list of (bb, idx, canonical place list). Sources: stores to places with a deref,
+        `&mut` arguments handed to calls (the callee may write anywhere below the borrowed place)."""
+        if getattr(self, "_mem_events", None) is None:
+            ev = []
+            fn = self.fn
+            for bb, si, st in fn.statements():
+                if st[0] in ("=", "setdiscr") and "*" in st[1][1:]:
+                    ev.append((bb, si, self.canon_place(st[1])))
+            for cs in fn.calls:
+                for a in cs.args:
+                    if isinstance(a, dict) or len(a) != 1:
+                        continue
+                    ty = fn.locals[a[0]][0]
+                    if ty.startswith("&mut") or ty.startswith("*mut"):
+                        ev.append((cs.bb, TERM, self.canon_place([a[0], "*"])))
+                if len(cs.dest) > 1 and "*" in cs.dest[1:]:
+                    ev.append((cs.bb, TERM, self.canon_place(cs.dest)))
+            self._mem_events = ev
+        return self._mem_events
+
+    @staticmethod
+    def _proj_conflict(a, w):
+        """place paths (lists) overlap: one is a prefix of the other (index projections are wildcards)."""
+        if a[0] != w[0]:
+            return False
+        for x, y in zip(a[1:], w[1:]):
+            if x == y or (x.startswith("[") and y.startswith("[")):
+                continue
+            return False
+        return True
+
+    def assume(self, lin, P=(0, -1)):
+        """Declare a fact `lin >= 0` that holds at point P (default: function entry)."""
+        self.assumed.append((lin, P))
+        self._facts_cache = {}
 
     # ------------------------------------------------------------------ naming
     def name(self, atom):
@@ -227,12 +313,23 @@ class LinFn:
         """Affine form of operand `op` read at point `at`; None if it is not an integer place/const."""
         if isinstance(op, dict):
             v = self.const_int(op)
-            return Lin({}, v) if v is not None else None
+            if v is not None:
+                return Lin({}, v)
+            c = op.get("c", "")
+            if op.get("ty") in INT_RANGE and re.match(r"^[A-Z][A-Z0-9_]*$", c) and "def" not in op:
+                self.atom_ty[c] = op["ty"]          # const generic parameter: one symbolic value
+                return Lin.atom(c)
+            return None
         n = op[0]
         projs = list(op[1:])
         return self._lin_place(n, projs, at, depth)
 
     def _atom(self, n, projs, ty=None):
+        if "*" in projs:
+            pl = self.canon_place([n] + list(projs))
+            n, projs = pl[0], pl[1:]
+            a = self._pl_str(pl)
+            self.atom_place[a] = pl
         a = "_%d%s" % (n, "".join(projs))
         if ty is None:
             ty = self.ty_of_place(n, projs)
@@ -248,7 +345,7 @@ class LinFn:
                 self.atom_ty[a] = ty
 
     def _single_def(self, n):
-        ds = self.fn.defs().get(n, [])
+        ds = [d for d in self.fn.defs().get(n, []) if "*" not in d[2]]     # stores THROUGH a pointer do not define it
         whole = [d for d in ds if d[2] == ()]
         if len(ds) == 1 and len(whole) == 1:
             return whole[0]
@@ -277,6 +374,11 @@ class LinFn:
             return self._atom(n, projs)
         if is_param:
             return self._atom(n, projs)
+        if projs in (["@Continue", ".0"], ["@Some", ".0"], ["@Ok", ".0"]):
+            r = self._lin_payload(n, projs, at, depth)
+            if r is not None:
+                return r
+            return self._atom(n, projs)
         d = self._single_def(n)
         if d is None:
             return self._atom(n, projs)
@@ -296,6 +398,10 @@ class LinFn:
                 to, frm = rv[3], (rv[4] if len(rv) > 4 else None)
                 if frm in INT_RANGE and to in INT_RANGE and INT_RANGE[frm][0] >= INT_RANGE[to][0] and INT_RANGE[frm][1] <= INT_RANGE[to][1]:
                     r = self.lin_op(rv[2], P, depth + 1)
+                elif to in INT_RANGE:
+                    c = self.lin_op(rv[2], P, depth + 1)
+                    if c is not None and c.is_const() and INT_RANGE[to][0] <= c.k <= INT_RANGE[to][1]:
+                        r = c
             elif k == "bin" and projs in ([], [".0"]):
                 op = rv[1]
                 checked = op.endswith("WithOverflow")
@@ -303,6 +409,9 @@ class LinFn:
                     base = op.replace("WithOverflow", "").replace("Unchecked", "")
                     a = self.lin_op(rv[2], P, depth + 1)
                     b = self.lin_op(rv[3], P, depth + 1)
+                    if len(rv) > 4:
+                        self._note_ty(a, rv[4])
+                        self._note_ty(b, rv[4])
                     if a is not None and b is not None:
                         if base == "Add":
                             r = a.add(b)
@@ -316,12 +425,253 @@ class LinFn:
             return r
         return self._atom(n, projs)
 
+    # ---- payloads of Option/Result/ControlFlow produced by recognised calls
+    def _payload_source(self, n, want, depth=0):
+        """Follow local n (an Option/Result/ControlFlow) back through `?`/ok_or adaptors to its producing call.
+        Returns CallSite or None."""
+        if depth > 6:
+            return None
+        d = self._single_def(n)
+        if d is None:
+            return None
+        if d[1] != "call":
+            rv = d[3]
+            if rv[0] == "use" and not isinstance(rv[1], dict) and len(rv[1]) == 1:
+                return self._payload_source(rv[1][0], want, depth + 1)
+            return None
+        cs = d[3]
+        if cs.short == "Try::branch" or re.search(r"^(Option::ok_or|Option::ok_or_else|Result::ok|Result::map_err)$", cs.short):
+            a = cs.args[0]
+            if isinstance(a, dict) or len(a) != 1:
+                return None
+            return self._payload_source(a[0], want, depth + 1)
+        return cs
+
+    def _lin_payload(self, n, projs, at, depth):
+        cs = self._payload_source(n, projs[0])
+        if cs is None:
+            return None
+        P = (cs.bb, TERM)
+        nm = cs.callee or ""
+        m = re.search(r"::(checked_add|checked_sub|checked_mul)$", nm)
+        if m and len(cs.args) == 2 and re.search(r"num::<impl (u8|u16|u32|u64|u128|usize)>", nm):
+            a = self.lin_op(cs.args[0], P, depth + 1)
+            b = self.lin_op(cs.args[1], P, depth + 1)
+            if a is None or b is None:
+                return None
+            op = m.group(1)
+            r = None
+            if op == "checked_add":
+                r = a.add(b)
+            elif op == "checked_sub":
+                r = a.sub(b)
+            elif op == "checked_mul" and (a.is_const() or b.is_const()):
+                r = b.scale(a.k) if a.is_const() else a.scale(b.k)
+            if r is not None and self.valid_between(r, P, at):
+                return r
+            return None
+        if re.search(r"iter::Iterator::next$", nm) and projs[0] == "@Some" and \
+                re.search(r"^\[(std::iter::Rev<)?std::ops::Range<usize>>?\]$", cs.gargs or ""):
+            b = self._range_loop_bounds(cs)
+            if b is not None:
+                lo, hi, PR = b
+                atom = self._atom(n, projs, ty="usize")
+                a = list(atom.c)[0]
+                if a not in self.extra_facts:
+                    self.extra_facts[a] = True
+                    here = (cs.bb, TERM)
+                    if lo.is_const() and hi.is_const():
+                        self.extra_bounds[a] = (lo.k, hi.k)
+                    else:
+                        # relational: lo <= v <= hi, bounds evaluated where the range was built
+                        if self.valid_between(lo, PR, here) and self.valid_between(hi, PR, here):
+                            self.assumed.append((atom.sub(lo), here))
+                            self.assumed.append((hi.sub(atom), here))
+                            self._facts_cache = {}
+                return atom
+        return None
+
+    def _range_loop_bounds(self, cs):
+        """`Range<usize>::next(&mut it)` where `it` is a local initialised once from `a..b` with constant bounds and
+        only ever touched by `next` -> every yielded value v satisfies a <= v <= b-1."""
+        fn = self.fn
+        # resolve the iterator local through reborrows
+        op = cs.args[0]
+        seen = 0
+        while seen < 6:
+            seen += 1
+            if isinstance(op, dict) or len(op) != 1:
+                return None
+            d = self._single_def(op[0])
+            if d is None or d[1] == "call" or d[3][0] != "ref":
+                return None
+            pl = d[3][2]
+            if len(pl) == 1:
+                it = pl[0]
+                break
+            if len(pl) == 2 and pl[1] == "*":
+                op = [pl[0]]
+                continue
+            return None
+        else:
+            return None
+        whole = [d for d in fn.defs().get(it, []) if d[2] == ()]
+        partial = [d for d in fn.defs().get(it, []) if d[2] != ()]
+        if len(whole) != 1 or partial:
+            return None
+        # every &mut borrow of `it` must end in an Iterator::next call
+        for bb, si, st in fn.statements():
+            if st[0] == "=" and st[2][0] in ("ref", "rawptr") and st[2][2] and st[2][2][0] == it and st[2][1] not in ("shared", "Not", "fake"):
+                if not self._only_feeds_next(st[1][0]):
+                    return None
+        # initial value: Range{start: a, end: b} (through into_iter / rev / moves)
+        cur = whole[0]
+        for _ in range(8):
+            rv = cur[3]
+            if cur[1] == "call":
+                c2 = rv
+                if c2.short in ("IntoIterator::into_iter", "Iterator::rev") and len(c2.args) == 1 and not isinstance(c2.args[0], dict):
+                    cur = self._single_def(c2.args[0][0])
+                    if cur is None:
+                        return None
+                    continue
+                return None
+            if rv[0] == "use" and not isinstance(rv[1], dict) and len(rv[1]) == 1:
+                cur = self._single_def(rv[1][0])
+                if cur is None:
+                    return None
+                continue
+            if rv[0] == "agg" and rv[1] == "adt" and rv[2].endswith("ops::Range") and len(rv[4]) == 2:
+                PR = (cur[0], cur[1])
+                a, b = self.lin_op(rv[4][0], PR), self.lin_op(rv[4][1], PR)
+                if a is None or b is None:
+                    return None
+                return (a, b.add(Lin({}, -1)), PR)
+            return None
+        return None
+
+    def _only_feeds_next(self, ref_local, depth=0):
+        if depth > 4:
+            return False
+        us = uses_of(self.fn, ref_local)
+        if not us:
+            return False
+        for u in us:
+            if u[0] == "call" and re.search(r"iter::Iterator::next$", u[2].callee or ""):
+                continue
+            if u[0] == "stmt" and u[3][2][0] in ("ref", "use") and len(u[3][1]) == 1:
+                if not self._only_feeds_next(u[3][1][0], depth + 1):
+                    return False
+                continue
+            return False
+        return True
+
+    # ---- slices
+    def slice_len(self, op, at, depth=0):
+        """Length (affine form) of the slice/array that reference operand `op` points to."""
+        if isinstance(op, dict) or depth > 10:
+            return None
+        fn = self.fn
+        n = op[0]
+        projs = [p for p in op[1:] if p != "*"]
+        ty = fn.locals[n][0]
+        if not projs:
+            m = re.match(r"^&(?:mut )?\[.*; (\d+)(?:_usize)?\]$", ty)
+            if m:
+                return Lin({}, int(m.group(1)))
+            m = re.match(r"^&(?:mut )?\[.*; ([A-Z][A-Z0-9_]*)\]$", ty)
+            if m:
+                self.atom_ty[m.group(1)] = "usize"
+                return Lin.atom(m.group(1))
+        if projs:
+            return None
+        if 0 < n <= fn.arg_count:
+            if re.match(r"^&\[[^;]*\]$", ty):
+                a = "len(_%d)" % n
+                self.atom_ty[a] = "usize"
+                return Lin.atom(a)
+            return None
+        d = self._single_def(n)
+        if d is None:
+            return None
+        P = (d[0], d[1] if d[1] != "call" else TERM)
+        if d[1] == "call":
+            cs = d[3]
+            if re.search(r"ops::Index(Mut)?::index(_mut)?$", cs.callee or "") and len(cs.args) == 2:
+                rg = self.range_of(cs.args[1], P)
+                if rg is None:
+                    return None
+                kind, a, b = rg
+                if kind == "Range":
+                    return b.sub(a)
+                if kind == "RangeTo":
+                    return b
+                base = self.slice_len(cs.args[0], P, depth + 1)
+                if base is None:
+                    return None
+                if kind == "RangeFrom":
+                    return base.sub(a)
+                if kind == "RangeFull":
+                    return base
+                return None
+            if re.match(r"^&\[[^;]*\]$", ty):
+                # an immutable slice returned by a call (e.g. str::as_bytes): one opaque length
+                a = "len(_%d)" % n
+                self.atom_ty[a] = "usize"
+                return Lin.atom(a)
+            return None
+        rv = d[3]
+        if rv[0] in ("ref", "rawptr"):
+            return self.slice_len(rv[2], P, depth + 1)
+        if rv[0] == "use" and not isinstance(rv[1], dict):
+            return self.slice_len(rv[1], P, depth + 1)
+        if rv[0] == "cast" and not isinstance(rv[2], dict):
+            return self.slice_len(rv[2], P, depth + 1)
+        return None
+
+    def slice_len_of_place(self, pl, at):
+        """`Len(place)` rvalue: length of the array/slice *place* (not a reference)."""
+        n = pl[0]
+        projs = [p for p in pl[1:] if p != "*"]
+        ty = self.fn.locals[n][0]
+        if not projs:
+            m = re.match(r"^&?(?:mut )?\[.*; (\d+)(?:_usize)?\]$", ty)
+            if m:
+                return Lin({}, int(m.group(1)))
+            if "*" in pl[1:]:
+                return self.slice_len([n], at)
+        return None
+
+    def range_of(self, op, at):
+        """operand holding a Range / RangeTo / RangeFrom aggregate -> (kind, start Lin|None, end Lin|None)"""
+        if isinstance(op, dict) or len(op) != 1:
+            return None
+        d = self._single_def(op[0])
+        if d is None or d[1] == "call":
+            return None
+        rv = d[3]
+        P = (d[0], d[1])
+        if rv[0] != "agg" or rv[1] != "adt":
+            return None
+        kind = rv[2].split("::")[-1]
+        names = rv[3][1:]
+        vals = {}
+        for nm, o in zip(names, rv[4]):
+            vals[nm] = self.lin_op(o, P)
+            if vals[nm] is None or not self.valid_between(vals[nm], P, at):
+                return None
+        if kind in ("Range", "RangeTo", "RangeFrom", "RangeFull"):
+            return kind, vals.get("start"), vals.get("end")
+        return None
+
     def _lin_call(self, cs, projs, P, depth):
         """Result of a call as an affine form (only for recognised pure callees)."""
         nm = cs.name or ""
         sh = cs.short
         if projs:
             return None
+        if re.search(r"slice::<impl \[T\]>::len$", cs.callee or "") and len(cs.args) == 1:
+            return self.slice_len(cs.args[0], P)
         if not self.inline:
             return None
         callee = self.prog.fns.get(cs.resolved) or self.prog.fns.get(cs.callee)
@@ -338,10 +688,19 @@ class LinFn:
             return None
         out = Lin({}, r.k)
         for a, c in r.c.items():
-            m = re.match(r"_(\d+)$", a)
+            m = re.match(r"_(\d+)(\*.*)?$", a)
             if not m or not (0 < int(m.group(1)) <= callee.arg_count):
                 return None
-            arg = self.lin_op(cs.args[int(m.group(1)) - 1], P, depth + 1)
+            aop = cs.args[int(m.group(1)) - 1]
+            if m.group(2):
+                # callee reads memory below its reference parameter: same memory below the caller's argument
+                if isinstance(aop, dict) or len(aop) != 1 or a not in sub.atom_place:
+                    return None
+                arg = self._atom(aop[0], ["*"] + list(sub.atom_place[a][2:]), ty=sub.atom_ty.get(a))
+                if not self.valid_between(arg, P, P):
+                    return None
+            else:
+                arg = self.lin_op(aop, P, depth + 1)
             if arg is None:
                 return None
             out = out.add(arg.scale(c))
@@ -413,6 +772,9 @@ class LinFn:
             return self._facts_cache[key]
         fn = self.fn
         out = []
+        for lin, P in self.assumed:
+            if (P[0] == S[0] or fn.dominates(P[0], S[0])) and self.valid_between(lin, P, S):
+                out.append(lin)
         for (g, _cond, allowed, labels) in fn.guards(S[0]):
             t = fn.blocks[g]["t"]
             op = t[1]
@@ -478,17 +840,36 @@ class LinFn:
 
     def atom_bounds(self, atom, S, depth=0):
         lo, hi = self.ty_range(atom)
+        if atom in self.extra_bounds:
+            lo = max(lo, self.extra_bounds[atom][0])
+            hi = min(hi, self.extra_bounds[atom][1])
         for F in self.facts_at(S):
             c = F.c.get(atom, 0)
             if c == 0:
                 continue
-            others_ok = all((v <= 0 and self.ty_range(a)[0] >= 0) for a, v in F.c.items() if a != atom)
-            if not others_ok:
+            # F = c*atom + rest >= 0 ; bound `rest` from above with intervals of the other atoms (bounded recursion)
+            rest_hi = F.k
+            okf = True
+            for a2, v in F.c.items():
+                if a2 == atom:
+                    continue
+                if depth >= 3:
+                    l2, h2 = self.ty_range(a2)
+                    if a2 in self.extra_bounds:
+                        l2, h2 = max(l2, self.extra_bounds[a2][0]), min(h2, self.extra_bounds[a2][1])
+                else:
+                    l2, h2 = self.atom_bounds(a2, S, depth + 3)
+                x = h2 if v > 0 else l2
+                if x in (INF, -INF):
+                    okf = False
+                    break
+                rest_hi += v * x
+            if not okf:
                 continue
-            if c < 0:       # -m*a + k + (<=0) >= 0  ->  a <= k/m
-                hi = min(hi, F.k // (-c))
-            else:           # m*a + k + (<=0) >= 0   ->  a >= -k/m
-                lo = max(lo, -(F.k // c))
+            if c < 0:       # -m*a + rest >= 0  ->  a <= rest_hi/m
+                hi = min(hi, rest_hi // (-c))
+            else:           # m*a + rest >= 0   ->  a >= -rest_hi/m
+                lo = max(lo, -(rest_hi // c))
         # multiply-defined local: maximum over its definitions
         b = _base(atom)
         if b is not None and depth < 6:
@@ -698,3 +1079,186 @@ def consumed_by_try(fn, cs, via=r"(Option::ok_or|Option::ok_or_else|Result::map_
             return False, chain + [c2.short]
         return False, chain + [u[0]]
     return False, chain
+
+
+# ---------------------------------------------------------------------- panic-site inventory (A8 + A9-lite)
+
+NOT_PANICKING = re.compile(r"(unwrap_or|unwrap_or_default|unwrap_or_else|checked_pow|wrapping_pow|saturating_pow|overflowing_pow)$")
+TYPE_OF_IMPL = re.compile(r"num::<impl (u8|u16|u32|u64|u128|usize|i8|i16|i32|i64|i128|isize)>::")
+
+
+def _max_pow10(ty):
+    lo, hi = INT_RANGE[ty]
+    e = 0
+    while 10 ** (e + 1) <= hi:
+        e += 1
+    return e
+
+
+def inventory(L, include_expansion=False):
+    """Classify every potential panic site of L.fn and try to discharge it with affine facts.
+    Returns list of dict(kind, key, ok, msg, bb, line). `key` is a stable rendering (no line numbers)."""
+    from . import analyses as A
+    fn = L.fn
+    out = []
+
+    def rec(kind, key, ok, msg, bb, line):
+        out.append({"kind": kind, "key": key, "ok": ok, "msg": msg, "bb": bb, "line": line})
+
+    for s in A.panic_sites(fn, include_expansion=include_expansion):
+        bb, kind, line = s["bb"], s["kind"], s["line"]
+        if in_debug_assert(fn, bb) and not include_expansion:
+            continue
+        t = fn.blocks[bb]["t"]
+        if kind.startswith("assert:"):
+            what = kind.split(":", 1)[1]
+            cond = t[1]
+            S = (bb, TERM)
+            if what == "Overflow":
+                src = None
+                for si, st in enumerate(fn.blocks[bb]["s"]):
+                    if st[0] == "=" and st[1] == [cond[0]] and st[2][0] == "bin":
+                        src = (si, st)
+                if src is None:
+                    rec("overflow", "overflow:?", False, "overflow assert whose operation is not in the same block", bb, line)
+                    continue
+                si, st = src
+                op = st[2][1]
+                a, b = L.lin_op(st[2][2], (bb, si)), L.lin_op(st[2][3], (bb, si))
+                ty = st[2][4] if len(st[2]) > 4 else ""
+                if op in ("Lt", "Le") and a is not None and b is not None and a.is_const() and b.is_const():
+                    okc = a.k < b.k if op == "Lt" else a.k <= b.k
+                    rec("overflow", "shift:%s<%s" % (a.k, b.k), okc, "constant shift amount %s within %s bits" % (a.k, b.k), bb, line)
+                    continue
+                if a is None or b is None or ty not in INT_RANGE:
+                    rec("overflow", "overflow:%s:?" % op, False, "%s on operands that are not affine" % op, bb, line)
+                    continue
+                base = op.replace("WithOverflow", "")
+                if base == "Sub":
+                    d = a.sub(b)
+                    ok, why = L.nonneg(d, (bb, si))
+                    if INT_RANGE[ty][0] < 0:
+                        ok = ok and L.ub(d, (bb, si)) <= INT_RANGE[ty][1]
+                    rec("sub", "sub:%s" % L.render(d), ok, "(%s) - (%s) >= 0 %s" % (L.render(a), L.render(b), "by " + why if ok else "NOT implied; " + why), bb, line)
+                elif base == "Add":
+                    d = a.add(b)
+                    u = L.ub(d, (bb, si))
+                    ok = u <= INT_RANGE[ty][1] and (INT_RANGE[ty][0] == 0 or L.lb(d, (bb, si)) >= INT_RANGE[ty][0])
+                    rec("add", "add:%s" % L.render(d), ok, "%s <= %s (%s::MAX = %s)" % (L.render(d), u, ty, INT_RANGE[ty][1]), bb, line)
+                elif base == "Mul" and (a.is_const() or b.is_const()):
+                    d = b.scale(a.k) if a.is_const() else a.scale(b.k)
+                    u = L.ub(d, (bb, si))
+                    ok = u <= INT_RANGE[ty][1] and (INT_RANGE[ty][0] == 0 or L.lb(d, (bb, si)) >= INT_RANGE[ty][0])
+                    rec("mul", "mul:%s" % L.render(d), ok, "%s <= %s (%s::MAX)" % (L.render(d), u, ty), bb, line)
+                elif base == "Mul":
+                    ua, ub_ = L.ub(a, (bb, si)), L.ub(b, (bb, si))
+                    ok = ua != INF and ub_ != INF and ua * ub_ <= INT_RANGE[ty][1] and INT_RANGE[ty][0] == 0
+                    rec("mul", "mul:(%s)*(%s)" % (L.render(a), L.render(b)), ok, "(%s <= %s) * (%s <= %s) within %s" % (L.render(a), ua, L.render(b), ub_, ty), bb, line)
+                else:
+                    rec("overflow", "overflow:%s" % op, False, "unclassified overflow-checked %s" % op, bb, line)
+            elif what == "BoundsCheck":
+                d = L._single_def(cond[0]) if len(cond) == 1 else None
+                ok, msg, key = False, "bounds check of unknown shape", "bounds:?"
+                if d is not None and d[1] != "call" and d[3][0] == "bin" and d[3][1] == "Lt":
+                    P = (d[0], d[1])
+                    idx = L.lin_op(d[3][2], P)
+                    ln = L.lin_op(d[3][3], P)
+                    if ln is None and not isinstance(d[3][3], dict):
+                        d2 = L._single_def(d[3][3][0])
+                        if d2 is not None and d2[1] != "call" and d2[3][0] == "len":
+                            ln = L.slice_len_of_place(d2[3][1], (d2[0], d2[1]))
+                    if idx is not None and ln is not None:
+                        need = ln.sub(idx).add(Lin({}, -1))
+                        ok, why = L.nonneg(need, P)
+                        key = "bounds:%s<%s" % (L.render(idx), L.render(ln))
+                        msg = "index %s < %s %s" % (L.render(idx), L.render(ln), "by " + why if ok else "NOT implied; " + why)
+                rec("bounds", key, ok, msg, bb, line)
+            elif what in ("DivisionByZero", "RemainderByZero"):
+                d = L._single_def(cond[0]) if len(cond) == 1 else None
+                ok, msg, key = False, "division whose divisor is not recognised", "div:?"
+                if d is not None and d[1] != "call" and d[3][0] == "bin" and d[3][1] == "Eq":
+                    P = (d[0], d[1])
+                    dv = d[3][2]
+                    lv = L.lin_op(dv, P)
+                    if lv is not None and L.lb(lv, P) >= 1:
+                        ok, key, msg = True, "div:%s" % L.render(lv), "divisor %s >= 1" % L.render(lv)
+                    elif not isinstance(dv, dict):
+                        d2 = L._single_def(dv[0])
+                        if d2 is not None and d2[1] == "call" and re.search(r"::pow$", d2[3].callee or "") and \
+                                (L.const_int(d2[3].args[0]) or 0) >= 1 and TYPE_OF_IMPL.search(d2[3].callee or ""):
+                            ok, key, msg = True, "div:pow(%s,..)" % L.const_int(d2[3].args[0]), "divisor is a power of a positive constant"
+                        elif lv is not None:
+                            key, msg = "div:%s" % L.render(lv), "divisor %s not shown non-zero" % L.render(lv)
+                rec("div", key, ok, msg, bb, line)
+            else:
+                rec("assert", "assert:%s" % what, False, "unclassified assert %s" % what, bb, line)
+            continue
+        if kind.startswith("diverge:"):
+            rec("diverge", kind, False, "diverging call %s outside debug assertions" % kind[8:], bb, line)
+            continue
+        cs = s.get("cs") or fn.call_in_block(bb)
+        nm = cs.callee or ""
+        if NOT_PANICKING.search(nm):
+            continue
+        S = (bb, TERM)
+        if re.search(r"slice::<impl \[T\]>::copy_from_slice$", nm):
+            a, b = L.slice_len(cs.args[0], S), L.slice_len(cs.args[1], S)
+            ok = a is not None and b is not None and a == b
+            rec("copy", "copy_from_slice:%s" % (L.render(a) if a is not None else "?"), ok,
+                "copy_from_slice: destination length %s == source length %s" % (L.render(a) if a is not None else "?", L.render(b) if b is not None else "?"), bb, line)
+            continue
+        if re.search(r"ops::Index(Mut)?::index(_mut)?$", nm):
+            rg = L.range_of(cs.args[1], S)
+            ln = L.slice_len(cs.args[0], S)
+            if rg is None:
+                ix = L.lin_op(cs.args[1], S)
+                if ix is not None and ln is not None:
+                    need = ln.sub(ix).add(Lin({}, -1))
+                    ok, why = L.nonneg(need, S)
+                    rec("index", "index:%s<%s" % (L.render(ix), L.render(ln)), ok, "index %s < len %s %s" % (L.render(ix), L.render(ln), "by " + why if ok else "NOT implied; " + why), bb, line)
+                else:
+                    rec("index", "index:%s" % cs.rshort, False, "indexing %s with an index/range that is not affine" % cs.rshort, bb, line)
+                continue
+            k, a, b = rg
+            parts, ok = [], True
+            desc = "%s..%s" % (L.render(a) if a is not None else "", L.render(b) if b is not None else "")
+            if ln is None:
+                rec("index", "slice:%s" % desc, False, "length of the indexed slice is not affine", bb, line)
+                continue
+            if a is not None and b is not None:
+                o1, w1 = L.nonneg(b.sub(a), S)
+                ok = ok and o1
+                parts.append("start<=end %s" % ("by " + w1 if o1 else "NOT implied"))
+            hi = b if b is not None else a
+            if hi is not None:
+                o2, w2 = L.nonneg(ln.sub(hi), S)
+                ok = ok and o2
+                parts.append("%s<=len(%s) %s" % (L.render(hi), L.render(ln), "by " + w2 if o2 else "NOT implied; " + w2))
+            rec("slice", "slice:[%s]of(%s)" % (desc, L.render(ln)), ok, "slice [%s] of length %s: %s" % (desc, L.render(ln), "; ".join(parts)), bb, line)
+            continue
+        if re.search(r"::pow$", nm):
+            m = TYPE_OF_IMPL.search(nm)
+            base = L.const_int(cs.args[0])
+            e = L.lin_op(cs.args[1], S)
+            if m and base == 10 and e is not None:
+                u = L.ub(e, S)
+                lim = _max_pow10(m.group(1))
+                rec("pow", "pow10:%s" % L.render(e), u <= lim, "10%s.pow(%s): exponent <= %s (limit %d)" % (m.group(1), L.render(e), u, lim), bb, line)
+            else:
+                rec("pow", "pow:%s" % cs.rshort, False, "pow with non-constant base or non-affine exponent (%s)" % cs.rshort, bb, line)
+            continue
+        if re.search(r"(Option|Result)::(unwrap|expect|unwrap_err|expect_err)$", cs.short):
+            src = L._payload_source(cs.args[0][0], None) if not isinstance(cs.args[0], dict) and len(cs.args[0]) == 1 else None
+            ok, msg = False, "%s on %s" % (cs.short, src.short if src is not None else "?")
+            key = "%s:%s" % (cs.short.split("::")[1], src.short if src is not None else "?")
+            if src is not None and src.short == "TryInto::try_into":
+                m = re.match(r"^\[&(?:'\S+ )?\[(\w+)\], \[(\w+); (\d+)(?:_usize)?\]\]$", src.gargs or "")
+                if m:
+                    ln = L.slice_len(src.args[0], (src.bb, TERM))
+                    if ln is not None and ln.is_const() and ln.k == int(m.group(3)):
+                        ok, msg = True, "try_into::<[%s; %s]>() of a slice of statically known length %d cannot fail" % (m.group(2), m.group(3), ln.k)
+                    key = "unwrap:slice-to-array[%s]" % m.group(3)
+            rec("unwrap", key, ok, msg, bb, line)
+            continue
+        rec("call", "call:%s" % cs.rshort, False, "potentially panicking call %s" % cs.rshort, bb, line)
+    return out
